@@ -155,6 +155,7 @@ Definition s_send (vars : nat -> option val) (arg : option Z) (cs : list combo) 
        (befores cs ++ (match first_primary cs with Some b => run_plain b | None => [] end) ++ rev (afters cs),
         match first_primary cs with Some b => prim_result vars arg b | None => RNil end).
 
-(* guard of the send theorem: continue-whopper skips the combination that follows the second (third, ...)
-   whopper (known finding C11-third-whopper-skipped); with at most two whoppers nothing is skipped *)
+(* the former guard of the send theorem: the original continue-whopper skipped the combination that followed
+   the second (third, ...) whopper (C11-third-whopper-skipped, repaired by repo_fixes/C10-2.patch). No theorem
+   needs it any more; Corr.v still counts the sends on either side of it for the evidence *)
 Definition g_whop (cs : list combo) : bool := length (wraps cs) <=? 2.
